@@ -41,6 +41,11 @@ OPS = {
     # apportioning one quantum three ways (portions of zero, one of which
     # receives the dispersed remainder)
     'o:$alloc': ('alloc', 'EUR', 'D:0.01', ['i:1', 'i:1', 'i:1']),
+    # quotients inside a type without reference unit (units of one base
+    # unit, differently scaled): unit / unit first, then quantities
+    'o:n1x0/n1x1:uu': ('bin', '/', 'uu', 'n1/x0', 'i:1', 'n1/x1', 'i:1'),
+    'o:n1x0/n1x1:qq': ('bin', '/', 'qq', 'n1/x0', 'i:5', 'n1/x1', 'i:2'),
+    'o:n1x0/n1x1:uq': ('bin', '/', 'uq', 'n1/x0', 'i:1', 'n1/x1', 'i:2'),
     'o:n1/x0:qq': ('bin', '/', 'qq', 'n1', 'i:6', 'x0', 'i:3'),
     'o:n1/x1:qu': ('bin', '/', 'qu', 'n1', 'i:6', 'x1', 'i:1'),
     'o:n1/x1:uu': ('bin', '/', 'uu', 'n1', 'i:1', 'x1', 'i:1'),
